@@ -3,7 +3,7 @@ import itertools
 
 from .. import sx, gen, lib, meaning as M, monitors, minimise
 from . import execcommon as X
-from .common import prog_features, sig, case_prog
+from .common import prog_features, sig, case_prog, add_outer_names_in_macro
 
 RULE = ("parser-produced circuits x override dictionaries x pass sequences over {S=expand_subcircuits, L=fill_in_let(ov), "
         "M=expand_macros, A=fill_in_map} of length <= 4 with repetition, A only after L (its documented precondition): "
@@ -15,7 +15,7 @@ RULE = ("parser-produced circuits x override dictionaries x pass sequences over 
 ASSUMPTIONS = ["a sequence in which a pass raises JaqalError is 'not applicable' and only counted",
                "reference full meaning from vf/meaning.py"]
 TIERS = {"quick": {"shards": 8, "budget_s": 320}, "thorough": {"shards": 16, "budget_s": 480}}
-REQUIRE = {"override-dictionary-object-kept-for-a-program-with-other-declared-values": 150, "alias-chain-programs": 150, "programs-loading-their-gates-from-a-pulse-module": 50, "programs-with-the-gate-set-in-force": 150, "parser-flags-with-another-option": 500, "macro-named-like-a-bounding-gate": 30, "sequences-judged": 3000, "idempotence-checked": 1000, "parser-flag-combinations": 500, "reparse-checked": 3000,
+REQUIRE = {"outer-aliases-used-in-a-macro-whose-parameter-shadows-their-constant": 40, "override-dictionary-object-kept-for-a-program-with-other-declared-values": 150, "alias-chain-programs": 150, "programs-loading-their-gates-from-a-pulse-module": 50, "programs-with-the-gate-set-in-force": 150, "parser-flags-with-another-option": 500, "macro-named-like-a-bounding-gate": 30, "sequences-judged": 3000, "idempotence-checked": 1000, "parser-flag-combinations": 500, "reparse-checked": 3000,
            "seq-len-4": 300}
 
 PASSES = "SLMA"
@@ -363,6 +363,11 @@ def shard(ctx):
             if ms:
                 prog = rename_macro(prog, rng.choice(ms), rng.choice(["prepare_all", "measure_all"]))
                 rec.count("macro-named-like-a-bounding-gate")
+        if chain_ov is None and rng.random() < 0.3:
+            # aliases declared outside a macro and bounded by a constant, used inside a macro whose parameter has that
+            # constant's name
+            prog, na = add_outer_names_in_macro(rng, prog, gate="X" if use_native else "vfg", executable=use_native)
+            rec.count("outer-aliases-used-in-a-macro-whose-parameter-shadows-their-constant", na)
         ov = make_override(rng, prog) if rng.random() < 0.6 else {}
         if chain_ov is not None:
             ov = chain_ov
